@@ -318,6 +318,13 @@ impl FetchState {
                 };
                 log::trace!(target: "fetch", "{sigrefs_at:?}");
                 self.run_stage(handle, handshake, &sigrefs_at)?;
+                // N.b. the announced `rad/sigrefs` are the ones that are
+                // fetched and applied, so the signed refs must be
+                // loaded from them as well, and not from whatever tip the
+                // remote happens to advertise by now.
+                for RefsAt { remote, at } in &refs_at {
+                    self.sigrefs.insert(*remote, *at);
+                }
                 let remotes = refs_at.iter().map(|r| &r.remote);
 
                 let signed_refs = sigrefs::RemoteRefs::load(&self.as_cached(handle), remotes)?;
